@@ -784,6 +784,7 @@ func TestC10(t *testing.T) {
 				Sig:  map[string]string{"stream": "wrapper", "variant": c.Variant}, Replay: sample})
 		}
 	}
+	c10ExtraStream(t, rep, rng.Fork(), env)
 	if rep.Failed() {
 		t.Fail()
 	}
